@@ -12,7 +12,8 @@ EXPLANATION = ("(1) QPACK static table == RFC 9204 Appendix A (99 rows, one shar
                "accept starts from SessionResponse::ok(), refusals use 403/404/429; (5) both Connection::new sites receive "
                "stream_session.session_id() (= id of the CONNECT stream); (6) SessionRequest::new builds exactly the five pseudo-headers with "
                ":authority == url.authority() and :path == url.path() ++ ('?' ++ query)? (string algebra, any spelling), and Headers::insert / get store and "
-               "look up names and values unchanged.")
+               "look up names and values unchanged."
+               ' Also: StaticTable::lookup_index compares names and values by exact equality only (an indexed field line is value-preserving); the request stream is never dropped with a cancelled worker branch (C02-R7).')
 NOT_DECIDED = ["decode(encode(h)) == h for arbitrary strings (Huffman coder is an external crate; value-level law)", "URL parsing (url crate)"]
 TRUSTED = ["rustc MIR / const evaluation", "spec/qpack_static.json", "url::Url accessors"]
 
